@@ -45,10 +45,23 @@ func ruleBaseOnce(c *Ctx, r *Rep, tier string) {
 				if len(call.Call.Args) > 0 {
 					arg = symKey(call.Call.Args[len(call.Call.Args)-1])
 				}
+				// the offset the count reader is brought to for this member: what
+				// it is compared with and sought to (after the skip of cached blocks)
+				readFrom := false
+				if len(call.Call.Args) > 0 {
+					av := call.Call.Args[len(call.Call.Args)-1]
+					allInstrs(f, func(x ssa.Instruction) {
+						if sc, ok := x.(*ssa.Call); ok {
+							if g := staticCallee(&sc.Call); g != nil && g.Name() == "seek" && len(sc.Call.Args) > 0 && sc.Call.Args[len(sc.Call.Args)-1] == av {
+								readFrom = true
+							}
+						}
+					})
+				}
 				switch {
 				case f.Name() != "nextBlockAt":
 					why = "setBase(" + arg + ") outside nextBlockAt: once a read has been started for an offset the block keeps that base, also when the read fails – nextBlock recognises the (failed) result of the block it wants by its base, and waits for ever if none of the results carries it"
-				case arg != "$1" && !strings.HasSuffix(arg, ".cr.offset()"):
+				case arg != "$1" && !strings.HasSuffix(arg, ".cr.offset()") && !readFrom:
 					why = "the base given is " + arg + ", not the offset the member is read from"
 				}
 				r.Check(why == "", rule, key, c.Pos(call.Pos()), "the block gets the offset it is read from, in nextBlockAt only", why)
